@@ -641,6 +641,18 @@ def run(ctx):
     full = " ".join(X(ga.nodes[r]["val"]) for r in returns(ga) if "val" in ga.nodes[r])
     ctx.check("this->archive_.average_usage" in full and "current_usage(" in full and "average_size_decay" in full, "temporal:getAverageUsage", "value-shape", ga.loc(),
               "moving average combines the archived average, the current usage and the decay parameter", "getAverageUsage returns " + full[:200])
+    # every value the moving average hands out is the recurrence (archived average, THIS tick's usage, decay); without a usage there is no
+    # average for the tick - the archive alone is last tick's value and would be archived again as if it were this tick's
+    for r in returns(ga):
+        if "val" not in ga.nodes[r]:
+            continue
+        t_ = X(ga.nodes[r]["val"])
+        none_ = re.fullmatch(r"(std::optional\()?(std::nullopt|\{\}|std::nullopt_t\(.*\))\)?", t_) is not None or "nullopt" in ret_text(ga, r)
+        ctx.check(none_ or ("this->archive_.average_usage" in t_ and "current_usage(" in t_ and "average_size_decay" in t_),
+                  "temporal:getAverageUsage:every-value-is-the-recurrence@%d" % ga.nodes[r].get("line", 0), "return_table", ga.loc(r),
+                  "returns 'unavailable' or the recurrence over this tick's usage",
+                  "getAverageUsage returns %s at line %d - not 'unavailable' and not the recurrence over this tick's usage: a tick without a readable memory.current "
+                  "reports the previous average as current, and refresh() archives it as this tick's value" % (t_[:80], ga.nodes[r].get("line", 0)))
     for nm in ("getIoCostRate", "getPgScanRate", "getAverageUsage"):
         f = P.fn1("Oomd::CgroupContext::" + nm)
         other = [f.text(i) for i, nn in enumerate(f.nodes) if nn["k"] == "member" and nn.get("qname", "").startswith("Oomd::CgroupContext::CgroupData::")]
